@@ -84,11 +84,14 @@ func (x *Exec) permute(st *State, et types.Type, arr, off, n string) (pi, rho st
 	st.add("(declare-fun " + pi + " (Int) Int)")
 	st.add("(declare-fun " + rho + " (Int) Int)")
 	nb := x.declare(st, "sorted", "(Array Int "+es+")")
-	B := app("select", A, arr)
+	B := x.declare(st, "unsorted", "(Array Int "+es+")") // a plain symbol, so that it can appear in patterns
+	x.assume(st, eq(B, app("select", A, arr)))
 	i := x.fresh("i")
 	x.assume(st, "(forall (("+i+" Int)) (! (=> (and (<= 0 "+i+") (< "+i+" "+n+")) (and (<= 0 ("+pi+" "+i+")) (< ("+pi+" "+i+") "+n+") (= ("+rho+" ("+pi+" "+i+")) "+i+") (= (select "+nb+" (at "+off+" "+i+")) (select "+B+" (at "+off+" ("+pi+" "+i+")))))) :pattern (("+pi+" "+i+")) :pattern ((select "+nb+" (at "+off+" "+i+")))))")
 	x.assume(st, "(forall (("+i+" Int)) (! (=> (and (<= 0 "+i+") (< "+i+" "+n+")) (and (<= 0 ("+rho+" "+i+")) (< ("+rho+" "+i+") "+n+") (= ("+pi+" ("+rho+" "+i+")) "+i+"))) :pattern (("+rho+" "+i+"))))")
 	x.assume(st, "(forall (("+i+" Int)) (! (=> (or (< "+i+" "+off+") (>= "+i+" (+ "+off+" "+n+"))) (= (select "+nb+" "+i+") (select "+B+" "+i+"))) :pattern ((select "+nb+" "+i+"))))")
+	// inverse direction, triggered by the old content
+	x.assume(st, "(forall (("+i+" Int)) (! (=> (and (<= 0 "+i+") (< "+i+" "+n+")) (= (select "+B+" (at "+off+" "+i+")) (select "+nb+" (at "+off+" ("+rho+" "+i+"))))) :pattern ((select "+B+" (at "+off+" "+i+")))))")
 	x.setArr(st, name, srt, app("store", A, arr, nb))
 	x.sumsPreserved(st, et, B, nb, off, n)
 	return
